@@ -576,7 +576,15 @@ func (ep *errProv) instantiate(fn *ssa.Function, call *ssa.Call, idx int, target
 			}
 			// passthrough of a parameter
 			if it.Param < len(allArgs) {
+				keeps := keepsMappedError(t, it.Param)
 				for _, inner := range ep.prov(fn, allArgs[it.Param], call.Block(), seen) {
+					if keeps && (inner.Code != 0 || inner.CodeParam >= 0) && (code != 0 || codeParam >= 0) {
+						// the callee hands an error that already carries a
+						// status on as it is (it asks errors.As for an
+						// *HTTPError first): its own labels are for the
+						// errors that carry none
+						continue
+					}
 					if code != 0 || codeParam >= 0 {
 						inner.Code, inner.CodeParam = code, codeParam
 					}
@@ -664,4 +672,59 @@ func reachingStores(al *ssa.Alloc, load ssa.Instruction) ([]*ssa.Store, bool) {
 	}
 	walk(load.Block())
 	return out, true
+}
+
+// keepsMappedError: fn tests its error parameter with errors.As for a pointer
+// to an HTTPError-like type of the module and has a return that hands the
+// parameter on unchanged (the "already mapped" guard).
+var keepsMappedCache = map[*ssa.Function]map[int]bool{}
+
+func keepsMappedError(fn *ssa.Function, idx int) bool {
+	if fn == nil || len(fn.Blocks) == 0 || idx < 0 || idx >= len(fn.Params) {
+		return false
+	}
+	if m, ok := keepsMappedCache[fn]; ok {
+		if v, ok := m[idx]; ok {
+			return v
+		}
+	} else {
+		keepsMappedCache[fn] = map[int]bool{}
+	}
+	prm := fn.Params[idx]
+	asks, returns := false, false
+	eachCall(fn, func(site ssa.CallInstruction) {
+		cc := site.Common()
+		if calleeName(cc) != "errors.As" || len(cc.Args) != 2 {
+			return
+		}
+		a := cc.Args[0]
+		if mi, ok := a.(*ssa.MakeInterface); ok {
+			a = mi.X
+		}
+		if a != ssa.Value(prm) {
+			return
+		}
+		t := cc.Args[1].Type()
+		if mi, ok := cc.Args[1].(*ssa.MakeInterface); ok {
+			t = mi.X.Type()
+		}
+		if pp, ok := t.(*types.Pointer); ok {
+			if p2, ok := pp.Elem().(*types.Pointer); ok {
+				if n := namedOf(p2.Elem()); n != nil && n.Obj().Name() == "HTTPError" {
+					asks = true
+				}
+			}
+		}
+	})
+	for _, b := range fn.Blocks {
+		if ret, ok := b.Instrs[len(b.Instrs)-1].(*ssa.Return); ok {
+			for _, res := range ret.Results {
+				if res == ssa.Value(prm) {
+					returns = true
+				}
+			}
+		}
+	}
+	keepsMappedCache[fn][idx] = asks && returns
+	return asks && returns
 }
